@@ -10,9 +10,17 @@
       `totalCalls P + 1` nodes — the formal content of "under recursion the analysis terminates";
     * `C03_own_included`: every own access of a function is in its results (store only grows);
     * `C03_no_resolvable_exact`: with no resolvable callee the results are exactly the own accesses.
+  Depth-one fragment (every resolvable callee is a leaf; programs of any size), where the pinned
+  code is right:
+    * `callTree_depthOne`, `runRoot_depthOne` (+ `_frame`, `_mem`, `_ok`): exact tree and fold;
+    * `C03_depthOne_sound_complete`, `C03_depthOne_full_holds`: reported spellings = the spec's
+      closure (`C03_at` holds), with the C04 fact as the explicit hypothesis `hSw_C04`;
+    * `C03_depthOne_derive_stable`: `derive S (d+1) = derive S 1`.
 -/
 import RattrProofs.Lemmas.Results
 import RattrProofs.Lemmas.ResultsCex
+import RattrProofs.Lemmas.ResultsDepthOne
+import RattrProofs.Lemmas.ResultsDepthOneSpec
 
 namespace Rattr.C03
 open Rattr Rattr.Results Rattr.Cex
@@ -175,5 +183,166 @@ theorem C03_full_false : ¬ C03_full := by
     rw [hl] at hb
     revert hb
     decide
+
+/-! ### the depth-one fragment (every resolvable callee is a leaf): the pinned code is right -/
+
+/-- The call tree of a root in a depth-one program is the root followed by its children
+`kidsOf P f` (`kids` = explicit fold of `expand`), and nothing else: no grandchildren. A node is
+a child iff it stems from a resolvable call of the name-sorted call list whose cid does not occur
+earlier in that list (first occurrence wins); its parent is the root (index 0). -/
+theorem callTree_depthOne (P : Prog) (hP : DepthOne P) (f : Key) :
+    callTree P f = some (rootNode f :: kidsOf P f) ∧
+    ∀ n, n ∈ kidsOf P f ↔
+      ∃ pre c post g, sortCalls (fnAt P f).calls = pre ++ c :: post ∧
+        (∀ c' ∈ pre, c'.cid ≠ c.cid) ∧ P.resolve c.cid = some g ∧
+        n = { key := g, edgeIn := some c, parent := some 0 } := by
+  refine ⟨callTree_eq_of_depthOne P hP f, ?_⟩
+  intro n
+  unfold kidsOf
+  rw [mem_kids_iff]
+  constructor
+  · rintro ⟨pre, c, post, g, h1, h2, _, h3, h4⟩
+    exact ⟨pre, c, post, g, h1, h2, h3, h4⟩
+  · rintro ⟨pre, c, post, g, h1, h2, h3, h4⟩
+    exact ⟨pre, c, post, g, h1, h2, by simp, h3, h4⟩
+
+/-- One root in a depth-one program, exactly: the run fails iff some `unbind_name` raises;
+otherwise only the root's entry changes, to `rootResult` = the root's entry `|=` the unbound entry
+of each child's callee, in child order (`mergeKids`). -/
+theorem runRoot_depthOne (P : Prog) (hP : DepthOne P) (σ : Store) (f : Key) :
+    runRoot P σ f = match mergeKids P σ (kidsOf P f) (σ f) with
+      | none => .never
+      | some r => .ok (r, σ.update f r) :=
+  runRoot_eq_of_depthOne P hP σ f
+
+/-- frame: a run changes no entry but the root's — callees and all other functions are untouched. -/
+theorem runRoot_depthOne_frame (P : Prog) (hP : DepthOne P) (σ σ' : Store) (f : Key) (res : IrSets)
+    (h : runRoot P σ f = .ok (res, σ')) : σ' f = res ∧ ∀ k, k ≠ f → σ' k = σ k := by
+  rw [runRoot_eq_of_depthOne P hP] at h
+  cases hr : rootResult P σ f with
+  | none => simp [hr] at h
+  | some r =>
+    simp only [hr, Out.ok.injEq, Prod.mk.injEq] at h
+    obtain ⟨h1, h2⟩ := h
+    subst h1; subst h2
+    exact ⟨update_same _ _ _, fun k hk => update_other _ _ hk⟩
+
+/-- membership form: a name is reported for the root iff it was in the root's entry or is in the
+unbound entry of some child's callee. -/
+theorem runRoot_depthOne_mem (P : Prog) (hP : DepthOne P) (σ σ' : Store) (f : Key) (res : IrSets)
+    (h : runRoot P σ f = .ok (res, σ')) (k : Kind) (x : NameS) :
+    x ∈ res.of k ↔ x ∈ (σ f).of k ∨
+      ∃ ch ∈ kidsOf P f, ∃ c u, ch.edgeIn = some c ∧
+        unbindIr (swapsOf P ch.key c) (σ ch.key) = some u ∧ x ∈ u.of k := by
+  rw [runRoot_eq_of_depthOne P hP] at h
+  cases hr : rootResult P σ f with
+  | none => simp [hr] at h
+  | some r =>
+    simp only [hr, Out.ok.injEq, Prod.mk.injEq] at h
+    obtain ⟨h1, _⟩ := h
+    subst h1
+    exact mem_mergeKids P σ _ _ _ hr k x
+
+/-- `unbind_name` cannot raise when every callee's names start with their basename
+(`CalleeWB`): the run succeeds. -/
+theorem runRoot_depthOne_ok (P : Prog) (hP : DepthOne P) (σ : Store) (hσ : CalleeWB P σ) (f : Key) :
+    ∃ res, runRoot P σ f = .ok (res, σ.update f res) := by
+  rw [runRoot_eq_of_depthOne P hP]
+  have := rootResult_isSome hσ f
+  cases hr : rootResult P σ f with
+  | none => simp [hr] at this
+  | some r => exact ⟨r, rfl⟩
+
+/-- `generate` over a depth-one program whose callees' names start with their basename never
+raises. -/
+theorem C03_depthOne_generate_ok (P : Prog) (hP : DepthOne P) (σ : Store) (hσ : CalleeWB P σ)
+    (order : List Key) : ∃ rs σ', generate P order σ = .ok (rs, σ') :=
+  generate_depthOne_ok hP order σ (Inv.refl P σ) (fun f _ => rootResult_isSome hσ f)
+
+/-- non-vacuity (two callers sharing a leaf): the fragment hypotheses hold and both callers get a
+child. -/
+example : DepthOne P1 ∧ CalleeWB P1 σ1 ∧ (kidsOf P1 0).length = 1 ∧ (kidsOf P1 1).length = 1 ∧
+    ∃ σ', runRoot P1 σ1 1 = .ok (⟨[nm "b.y" "b", nm "b.y.attr" "b.y"], [nm "b.y.z" "b.y"],
+      [nm "b.y.w" "b.y"]⟩, σ') := by
+  refine ⟨P1_depthOne, ?_, by decide, by decide, ?_⟩
+  · rintro g ⟨f, c, hc, hr⟩
+    have hg : g = 2 := by
+      simp only [P1] at hr
+      split at hr <;> simp_all
+    subst hg
+    intro k n hn
+    cases k <;> simp [σ1, IrSets.of] at hn <;> subst hn <;> decide
+  · rw [runRoot_eq_of_depthOne P1 P1_depthOne]
+    have : rootResult P1 σ1 1 = some ⟨[nm "b.y" "b", nm "b.y.attr" "b.y"], [nm "b.y.z" "b.y"],
+      [nm "b.y.w" "b.y"]⟩ := by decide +kernel
+    rw [this]
+    exact ⟨_, rfl⟩
+
+/-! ### depth-one fragment: soundness and completeness w.r.t. the independent closure spec -/
+
+/-- In a depth-one program the spec's unfolding is complete after one call level. -/
+theorem C03_depthOne_derive_stable (S : Spec.SProg) (hP : DepthOne S.prog) (d : Nat) (f : Key) :
+    Spec.derive S (d + 1) f = Spec.derive S 1 f :=
+  derive_depthOne S hP d f
+
+/-- C03 in the depth-one fragment. Hypotheses: every resolvable callee is a leaf (`DepthOne`);
+equal Call symbols of one function have equal arguments (`CidArgs`, true of all real inputs);
+callee own names have basename = root variable (`CalleeRootBased`); no `*`-spelled argument
+(`NoStarArgs` — compound arguments `a.b`, `a[0]` ARE allowed at this depth); interfaces are those
+of the signatures; Python accepts every resolvable call and a `**kwargs` parameter receives
+something (`AcceptedCalls`); and — ASSUMED, it is the C04 statement — `hSw_C04 : SwapsAreBinding S`
+(`construct_call_swaps` = Python's binding + stand-ins on those calls).
+Then the spellings reported for any root are exactly the spec's closure `derive S 1 f`
+(= `derive S d f` for every `d ≥ 1`), in any generation order. -/
+theorem C03_depthOne_sound_complete (S : Spec.SProg) (hP : DepthOne S.prog)
+    (hC : CidArgs S.prog) (hR : CalleeRootBased S) (hN : NoStarArgs S.prog) (hI : IfaceOfSig S)
+    (hA : AcceptedCalls S) (hSw_C04 : SwapsAreBinding S)
+    (order : List Key) (rs : List (Key × IrSets)) (σ' : Store)
+    (hgen : generate S.prog order S.own = .ok (rs, σ')) (f : Key) (res : IrSets)
+    (hf : (f, res) ∈ rs) (n : Str) :
+    (n ∈ fulls res.gets ↔ n ∈ (Spec.derive S 1 f).gets) ∧
+    (n ∈ fulls res.sets ↔ n ∈ (Spec.derive S 1 f).sets) ∧
+    (n ∈ fulls res.dels ↔ n ∈ (Spec.derive S 1 f).dels) := by
+  obtain ⟨_, hres, _⟩ := generate_depthOne hP order S.own σ' rs (Inv.refl _ _) hgen
+  have hr := hres (f, res) hf
+  simp only at hr
+  have key := fun k => rootResult_iff_derive S hP hC hR hN hI hA hSw_C04 f res hr k n
+  unfold fulls
+  simp only [List.mem_map]
+  exact ⟨key .get, key .set, key .del⟩
+
+/-- …hence the FULL statement `C03_at` holds on the fragment (soundness, and completeness — the
+call graph of a depth-one program is acyclic, `depthOne_acyclic`). -/
+theorem C03_depthOne_full_holds (S : Spec.SProg) (hP : DepthOne S.prog)
+    (hC : CidArgs S.prog) (hR : CalleeRootBased S) (hN : NoStarArgs S.prog) (hI : IfaceOfSig S)
+    (hA : AcceptedCalls S) (hSw_C04 : SwapsAreBinding S) (order : List Key) :
+    C03_at S order := by
+  intro rs σ' hgen f res hf
+  have key := C03_depthOne_sound_complete S hP hC hR hN hI hA hSw_C04 order rs σ' hgen f res hf
+  have dg := fun n => derivable_iff_depthOne S hP f .get n
+  have ds := fun n => derivable_iff_depthOne S hP f .set n
+  have dd := fun n => derivable_iff_depthOne S hP f .del n
+  refine ⟨?_, ?_, ?_, fun _ => ⟨?_, ?_, ?_⟩⟩
+  · intro x hx
+    exact (dg x.full).mpr ((key x.full).1.mp (List.mem_map.mpr ⟨x, hx, rfl⟩))
+  · intro x hx
+    exact (ds x.full).mpr ((key x.full).2.1.mp (List.mem_map.mpr ⟨x, hx, rfl⟩))
+  · intro x hx
+    exact (dd x.full).mpr ((key x.full).2.2.mp (List.mem_map.mpr ⟨x, hx, rfl⟩))
+  · intro n hn
+    exact (key n).1.mpr ((dg n).mp hn)
+  · intro n hn
+    exact (key n).2.1.mpr ((ds n).mp hn)
+  · intro n hn
+    exact (key n).2.2.mpr ((dd n).mp hn)
+
+/-- non-vacuity: the two-callers-one-leaf program meets all hypotheses, is acyclic, and caller
+`c2(b): leaf(b.y)` gets the compound-argument names `b.y.attr` / `b.y.z` / `b.y.w`. -/
+example : C03_at S1 [0, 1, 2] ∧ Spec.Acyclic S1.prog ∧
+    (Spec.derive S1 1 1).gets = [s "b.y", s "b.y.attr"] ∧
+    (Spec.derive S1 1 1).sets = [s "b.y.z"] ∧ (Spec.derive S1 1 1).dels = [s "b.y.w"] := by
+  obtain ⟨h1, h2, h3, h4, h5, h6, h7⟩ := S1_hyps
+  exact ⟨C03_depthOne_full_holds S1 h1 h2 h3 h4 h5 h6 h7 _, depthOne_acyclic h1,
+    by decide +kernel, by decide +kernel, by decide +kernel⟩
 
 end Rattr.C03
